@@ -55,12 +55,16 @@ fn check_shared_poll(fair: bool, st: [u8; N], queue: &[usize]) {
     kani::assume(w.sh.st[i] != 3);
     let wk = kit::waker(N + kit::any_lt(2));
     let mut cx = Context::from_waker(&wk);
+    let q0 = lv::view(&w.sem.state.lock().waiters);
     kit::arm();
     let r = unsafe { core::pin::Pin::new_unchecked(&mut *w.futs[i]) }.poll(&mut cx);
     let term = w.futs[i].is_terminated();
     kit::disarm();
     assert!(r.is_ready() == term, "[C17] is_terminated() must be true exactly after Ready (a pending shared future keeps its handle)");
     assert!(queue_ok(fair, &w.futs, &w.sem.state.lock()), "[C01] queue must contain exactly the live waiting futures");
+    if w.sh.st[i] == 1 && r.is_pending() {
+        assert!(lv::same(q0, lv::view(&w.sem.state.lock().waiters)), "[C07] re-polling a waiting shared acquire future does not change its place in the order of arrival");
+    }
     let now = w.sem.permits();
     match &r {
         core::task::Poll::Ready(rel) => {
